@@ -125,16 +125,9 @@ func (c *c25State) exec(q string) error {
 		c.ops = append(c.ops, fmt.Sprintf("%s -- ERR %d", short, vsql.ErrCode(err)))
 		c.full[len(c.full)-1] += fmt.Sprintf(" -- ERR %d", vsql.ErrCode(err))
 		if vsql.ErrCode(err) == 0 && (strings.Contains(err.Error(), "connection") || strings.Contains(err.Error(), "EOF")) {
-			// the server dropped the connection (a recovered panic in the handler): not this
-			// property's business; continue on a new connection
-			c.class("connection_lost")
-			c.s.Close()
-			c.s = c.srv.Session(c.rt, "p", c.db)
-			c.s.MustExec(c.rt, "SET @@dolt_allow_commit_conflicts = 1")
-			c.s.MustExec(c.rt, "SET @@dolt_force_transaction_commit = 1")
-			if c.cur != "main" {
-				_ = c.s.Exec("CALL dolt_checkout('" + c.cur + "')")
-			}
+			// the server dropped the connection: a panic in the statement handler. The state it
+			// leaves behind cannot be trusted to be one the property speaks about.
+			c.fail("the server dropped the connection while executing: %s (%v)", q, err)
 		}
 	} else {
 		c.ops = append(c.ops, short)
